@@ -758,3 +758,54 @@ Proof.
       inversion E1; inversion E2; subst. reflexivity.
   - rewrite Eshow. exact Hedges.
 Qed.
+
+(* ---------------------------------------------------------------- the Display buffer (32 bytes) is never exceeded *)
+Lemma digits_head_nonzero n : 0 < n -> match digits n with h :: _ => 0 < h | [] => False end.
+Proof.
+  induction n as [n IH] using (well_founded_induction N.lt_wf_0). intros Hn.
+  pose proof (N.div_mod n 10 ltac:(lia)) as Hdm. pose proof (N.mod_lt n 10 ltac:(lia)) as Hm.
+  assert (E : n = (n / 10) * 10 + n mod 10) by lia. rewrite E. rewrite digits_step by lia.
+  destruct (N.eqb_spec (n / 10) 0) as [E0|E0].
+  - rewrite E0, digits_0. cbn [app]. lia.
+  - assert (Hlt : n / 10 < n) by (apply N.div_lt; lia).
+    specialize (IH (n / 10) Hlt ltac:(lia)). destruct (digits (n / 10)); [contradiction|exact IH].
+Qed.
+
+Lemma val_lower h t : Forall (fun x => x < 10) (h :: t) -> 0 < h -> pow10 (length t) <= val (h :: t).
+Proof.
+  intros _ Hh. change (h :: t) with ([h] ++ t). rewrite val_app. change (val [h]) with (0 * 10 + h).
+  pose proof (pow10_pos (length t)). nia.
+Qed.
+
+Lemma pow10_mono a b : (a <= b)%nat -> pow10 a <= pow10 b.
+Proof.
+  intros H. replace b with (a + (b - a))%nat by lia. rewrite pow10_add. pose proof (pow10_pos (b - a)).
+  pose proof (pow10_pos a). nia.
+Qed.
+
+Lemma digits_length_bound n : n <= max_mant -> (length (digits n) <= 29)%nat.
+Proof.
+  intros Hn. destruct (N.eqb_spec n 0) as [->|Hz]; [cbn; lia|].
+  pose proof (digits_head_nonzero n ltac:(lia)) as Hh. destruct (digits_val n) as [Hv HF].
+  destruct (digits n) as [|h t] eqn:E; [contradiction|].
+  pose proof (val_lower h t HF Hh) as Hl. rewrite Hv in Hl.
+  destruct (Nat.le_gt_cases (length t) 28) as [H|H]; [cbn [length]; lia|].
+  exfalso. assert (H29 : pow10 29 <= pow10 (length t)) by (apply pow10_mono; lia).
+  assert (E29 : max_mant < pow10 29) by (vm_compute; reflexivity). lia.
+Qed.
+
+Theorem fmt_fits d k :
+  valid_dec d = true -> (k <= 2)%nat -> fmt_panics (Nat.max (trimmed_prec d) k) d = false.
+Proof.
+  intros Hv Hk. apply valid_dec_spec in Hv. destruct Hv as [Hm [Hs _]].
+  unfold fmt_panics. apply Nat.ltb_ge. unfold rep_len.
+  destruct (frac_core d) as [core [j [_ [Hlen Hsum]]]].
+  set (tp := trimmed_prec d) in *.
+  assert (Hw : (length (whole_chars (whole_digits d)) <= Nat.max 1 (length (digits (d_mant d)) - d_scale d))%nat).
+  { unfold whole_digits. rewrite whole_chars_eq, chars_length.
+    set (w := firstn _ _). assert (Hl : (length w <= length (mant_digits d) - d_scale d)%nat) by (apply firstn_le_length).
+    unfold mant_digits, pad_left in Hl. rewrite app_length, zeros_length in Hl.
+    destruct w; cbn [whole' length] in *; lia. }
+  pose proof (digits_length_bound _ Hm) as Hd.
+  destruct (Nat.eqb_spec (Nat.max tp k) 0); lia.
+Qed.
